@@ -277,7 +277,50 @@ class FlowPathLengths(Family):
         return res
 
 
+def wrapper_delineate_area(tier):
+    """Catchment.delineate_area: buffers of the requested size filled with -1, the flow grid and the inlets of THIS call are passed (no
+    state carried over from an earlier call on the same object), the result keeps exactly the non-negative entries"""
+    import numpy as np
+    from hydrodiy.gis import grid as G
+    from engine.contracts import Recorder, patched_module
+    out = []
+
+    def behaviour(c):
+        # pretend the kernel found cells 0 and 1
+        c.raw_args[4][:2] = [0, 1]
+        return 0
+    for (nr, nc) in [(2, 2), (3, 4)]:
+        fd = G.Grid('fd', nc, nr, dtype=np.int64)
+        fd.data = np.full((nr, nc), 4, dtype=np.int64)
+        ca = G.Catchment('c', fd)
+        rec = Recorder({'delineate_area': behaviour})
+        with patched_module(G, 'c_hydrodiy_gis', rec):
+            ca.delineate_area(1, idxinlets=[2], nval=7)
+            c1 = rec.calls[[c.name for c in rec.calls].index('delineate_area')]
+            n1 = len(rec.calls)
+            ca.delineate_area(0, nval=5)
+            c2 = [c for c in rec.calls[n1:] if c.name == 'delineate_area'][0]
+        tag = dict(nrows=nr, ncols=nc)
+        out.append(('outlet-passed', int(c1.args[2]) == 1 and int(c2.args[2]) == 0, tag))
+        out.append(('inlets-of-this-call', list(c1.args[3]) == [2], dict(tag, got=list(map(int, c1.args[3])))))
+        out.append(('no-inlets-carried-over-from-earlier-call', len(c2.args[3]) == 0, dict(tag, got=list(map(int, c2.args[3])))))
+        out.append(('buffers-of-requested-size-filled-with--1', all(len(c1.args[k]) == 7 and np.all(c1.args[k] == -1) for k in (4, 5, 6)) and
+                    all(len(c2.args[k]) == 5 for k in (4, 5, 6)), tag))
+        out.append(('flowdir-passed', np.array_equal(c1.args[1], fd.data), tag))
+        out.append(('area=non-negative-entries', list(ca.idxcells_area) == [0, 1], dict(tag, got=list(map(int, ca.idxcells_area)))))
+    return out
+
+
+CONTRACTS = [wrapper_delineate_area]
+
+
+def contracts_part(tier, seed, workdir):
+    from engine.contracts import run_contracts
+    return run_contracts('C06', 'harness.C06', CONTRACTS, tier)
+
+
 FAMILIES = [Downstream(), Upstream(), DelineateArea(), DelineateRiver(), FlowPathLengths()]
+PARTS = [contracts_part]
 
 META = dict(
     explanation='bounded symbolic execution of the LLVM IR of c_downstream / c_upstream / c_delineate_area / c_delineate_river / '
